@@ -667,7 +667,7 @@ def rule_R2(ctx, entry_terms):
         """, st_fi, no_inline=[app.name])
     if ex.calls(app.name):
         same_events(ctx, "R2", "setup_trace makes exactly one append_to_trace(…, <new list>, tree, tree_dist) call", st_fi, ex.calls(app.name), sp.calls(app.name),
-                    "append_to_trace calls of setup_trace", skip_args=(0, 1))
+                    "append_to_trace calls of setup_trace", skip_args=(0, 1), guards=True)
         same(ctx, "R2", "setup_trace returns that list, which starts empty", st_fi, ex.result, sp.result, "returned trace")
         others = [e for e in ex.events if e.name in (".append", ".extend", ".insert")]
         if others:
